@@ -39,6 +39,7 @@ _Static_assert(offsetof(struct cat_object, index) == 3 * sizeof(void *), "first 
 
 /* ---- configuration ---- */
 static int n_prod = 2, bound = 2, ops_per_prod = 2, shard = 0, nshards = 1, horizon = 3000, g_opset;
+static int variant;       /* 1: the hold is entered by the read handler of producer 1's (registered) event command, requested as AT+U1? */
 static const char *replay_dir = "replays";
 static const char *prop = "C17";
 static double deadline = 0, t_start;
@@ -281,6 +282,8 @@ static cat_return_state ev_read(const struct cat_command *cmd, uint8_t *data, si
 {
         (void)data; (void)data_size; (void)max;
         inside_point(2);
+        /* variant 1: the command machine hands out the command half of the working buffer, the event machine the other one */
+        if (variant == 1 && data == wbuf) return CAT_RETURN_STATE_HOLD;
         delivered[(cmd - cmds) - 1]++;
         /* the first producer's events fail: an event that ends through the error path must not disturb the ones queued behind it */
         return ((cmd - cmds) - 1 == 1) ? CAT_RETURN_STATE_ERROR : CAT_RETURN_STATE_DATA_OK;
@@ -369,14 +372,14 @@ static void *producer_body(void *arg)
 }
 
 /* ---- one execution ---- */
-static const char *INPUT = "ATH\nATP\n";
+static const char *INPUT = "ATH\nATP\n", *INPUT1 = "AT+U1?\nATP\n";
 
 static void run_once(void)
 {
         set_prot(1);
         memset(alias, 0, REGION);
         memset(accepted, 0, sizeof accepted); memset(full, 0, sizeof full); memset(delivered, 0, sizeof delivered);
-        out_n = 0; in_p = INPUT; in_pos = 0; in_n = (int)strlen(INPUT); write_attempts = 0; hold_released_ok = 0;
+        out_n = 0; in_p = variant == 1 ? INPUT1 : INPUT; in_pos = 0; in_n = (int)strlen(in_p); write_attempts = 0; hold_released_ok = 0;
         npts = 0; preemptions = 0; prune_from = -1; cur = -1; lock_owner = -1; progress_epoch = 0; deadlock = 0; aborted = 0;
         nthreads = 1 + n_prod;
         /* descriptor: +H holds, +P answers, one event command per producer */
@@ -389,7 +392,7 @@ static void run_once(void)
                 vars[p] = (uint32_t)(10 + p);
                 cmds[1 + p] = (struct cat_command){.name = nm[p], .read = ev_read, .test = ev_test, .var = &evars[p], .var_num = 1};
         }
-        grp = (struct cat_command_group){.cmd = cmds, .cmd_num = 2};       /* event commands need not be registered */
+        grp = (struct cat_command_group){.cmd = cmds, .cmd_num = variant == 1 ? 3 : 2};       /* event commands need not be registered */
         grps[0] = &grp;
         desc = (struct cat_descriptor){.cmd_group = grps, .cmd_group_num = 1, .buf = wbuf, .buf_size = 96};
         cat_init(obj, &desc, &io, &mx);
@@ -446,7 +449,7 @@ static void write_replay(const uint8_t *pf, int n, const char *msg)
         snprintf(replay_path, sizeof replay_path, "%s/%s_threads_%016llx.replay", replay_dir, prop, (unsigned long long)h);
         FILE *f = fopen(replay_path, "w");
         if (!f) fatal("cannot write replay");
-        fprintf(f, "# C17 schedule replay\nbin threads\nargv '--producers' '%d' '--ops' '%d' '--opset' '%d'\nring %d\nprop %s\nmsg %s\nschedule %d", n_prod, ops_per_prod, g_opset, (int)CAT_UNSOLICITED_CMD_BUFFER_SIZE, prop, msg, n);
+        fprintf(f, "# C17 schedule replay\nbin threads\nargv '--producers' '%d' '--ops' '%d' '--opset' '%d' '--variant' '%d'\nring %d\nprop %s\nmsg %s\nschedule %d", n_prod, ops_per_prod, g_opset, variant, (int)CAT_UNSOLICITED_CMD_BUFFER_SIZE, prop, msg, n);
         for (int i = 0; i < n; i++) fprintf(f, " %d", pf[i]);
         fprintf(f, "\n");
         fclose(f);
@@ -515,6 +518,7 @@ int main(int argc, char **argv)
                 else if (!strcmp(argv[i], "--bound")) bound = atoi(argv[i + 1]);
                 else if (!strcmp(argv[i], "--ops")) ops_per_prod = atoi(argv[i + 1]);
                 else if (!strcmp(argv[i], "--opset")) opset = atoi(argv[i + 1]);
+                else if (!strcmp(argv[i], "--variant")) variant = atoi(argv[i + 1]);
                 else if (!strcmp(argv[i], "--shard")) shard = atoi(argv[i + 1]);
                 else if (!strcmp(argv[i], "--nshards")) nshards = atoi(argv[i + 1]);
                 else if (!strcmp(argv[i], "--deadline")) deadline = atof(argv[i + 1]);
